@@ -87,7 +87,7 @@ def _q17(ja, jb, jc, pi, force, answer, k):
         if sorted(map(str, cancels)) != want:
             return "cancel %s (job states %s, %d-th cancel command failing): cancel commands for %s, expected exactly %s" % (pats, [ST[j] for j in js], kk, sorted(map(str, cancels)), want)
         # every target that could not be cancelled is reported
-        lines = [str(x) for x in w.out]
+        lines = w.reported_lines()
         for nm in sel:
             # reported = some echoed line other than the "Cancelling target <name>" announcement names it (wording is free)
             if nm not in ids and not any((nm in ln.split() or (" " + nm + " ") in (" " + ln + " ")) and not ln.startswith("Cancelling target") for ln in lines):
